@@ -31,9 +31,24 @@ func vStart(m *WebhookManager) error { return nil }
 // VServe runs the real HTTP handler body (exporter for the unexported method).
 func VServe(h *WebhookHandler, w http.ResponseWriter, r *http.Request) { h.serveReviewRequest(w, r) }
 
-// Objects in harness requests carry their apiVersion as the raw bytes (the JSON
-// decoding of object bodies is outside); ExtractAPIVersions is stubbed
-// accordingly, keeping its "unique, in order of first appearance" contract.
+// Objects in harness requests are the JSON text {"apiVersion":"<v>"} (the JSON
+// decoding of object bodies is outside); ExtractAPIVersions is stubbed by a
+// textual extraction, keeping its "unique, in order of first appearance"
+// contract.
+func VObject(version string) runtime.RawExtension {
+	return runtime.RawExtension{Raw: []byte(`{"apiVersion":"` + version + `"}`)}
+}
+
+// VObjectVersion is the inverse of VObject.
+func VObjectVersion(o runtime.RawExtension) string {
+	s := string(o.Raw)
+	const pfx, sfx = `{"apiVersion":"`, `"}`
+	if len(s) >= len(pfx)+len(sfx) && s[:len(pfx)] == pfx && s[len(s)-len(sfx):] == sfx {
+		return s[len(pfx) : len(s)-len(sfx)]
+	}
+	return ""
+}
+
 var VPlainVersions bool
 
 func vPlainVersions() bool { return VPlainVersions }
@@ -42,7 +57,7 @@ func vPlainVersions() bool { return VPlainVersions }
 func vExtractAPIVersions(objs []runtime.RawExtension) []string {
 	res := make([]string, 0)
 	for _, o := range objs {
-		v := string(o.Raw)
+		v := VObjectVersion(o)
 		dup := false
 		for _, r := range res {
 			if r == v {
